@@ -796,6 +796,49 @@ class LcGen(GovGen):
                 self.ops.append("restart")
                 self.tags.add("restart")
 
+    def scripted_reopened_under_freeze(self):
+        """a lower-priority proposal about a service is paused by a logout of the service; the appchain is frozen while the
+        service is `logouting` (the cascade cannot pause it); the logout is then voted down or withdrawn, which re-opens the
+        paused proposal: whatever status the service returns to, it must not be usable under the frozen appchain — read
+        back and probed, on the running node and after a restart"""
+        r = self.r
+        c = r.choice(["c1", "c2", "c4"])
+        svc = r.choice([x for x in SVC if x.startswith(c + ":")])
+        low = r.choice(["FreezeService", "FreezeService", "UpdateService"])
+        if low == "UpdateService":
+            self.submit(f"ca{c[1]}", f"service UpdateService s:{svc} s:newname-{r.randint(0, 99)} s:intro s:~ s:details s:reason", "service-update", "service", svc)
+        else:
+            self.submit(r.choice(ADMINS), f"service FreezeService s:{svc} s:reason", "service-freeze", "service", svc)
+        p_low = self.props[-1]
+        self.submit(f"ca{c[1]}", f"service LogoutService s:{svc} s:reason", "service-logout", "service", svc)
+        p_hi = self.props[-1]
+        self.ops.append(f"q prop {p_low[0]}")
+        self.submit(r.choice(ADMINS), f"appchain FreezeAppchain s:{c} s:reason", "appchain-freeze", "appchain", c)
+        p_ch = self.props[-1]
+        self.vote_all(p_ch[0], "appchain", c, "approve")
+        self.observe(svc)
+        if r.random() < 0.3:
+            self.ops.append(f"block bvm ca{c[1]} gov WithdrawProposal s:{p_hi[0]} s:reason")
+            self.ops.append(f"q prop {p_hi[0]}")
+        else:
+            self.vote_all(p_hi[0], "service", svc, "reject")
+        self.ops.append(f"q prop {p_low[0]}")
+        self.observe(svc)
+        self.tags.add(f"reopened-under-freeze:{low}")
+        other = "c2:s1" if c != "c2" else "c4:s1"
+        for rnd in range(2):
+            for f, t in ((svc, other), (other, svc)):
+                i = self.idx.get((f, t), 1)
+                self.observe(f)
+                self.observe(t)
+                self.ops.append(f"block ibtp ca{f[1]} {f} {t} {i} req 0 - ok")
+                self.observe(f)
+                self.observe(t)
+                self.idx[(f, t)] = i + 1
+            if rnd == 0:
+                self.ops.append("restart")
+                self.tags.add("restart")
+
     def late_vote(self):
         if not self.pending:
             return self.govern()
@@ -823,6 +866,8 @@ def gen_c16(rng, n, tier):
             g.scripted_sequence()
         elif k0 < 0.6:
             g.scripted_cascade()
+        elif k0 < 0.72:
+            g.scripted_reopened_under_freeze()
         for _ in range(r.randint(5, 14)):
             k = r.random()
             if k < 0.5:
